@@ -1083,7 +1083,7 @@ fn main() {
                     "C04" => run_c04(&mut ctx, &mut rng, resp, thorough, shard, shards),
                     "C08" => run_c08_codec(&mut ctx, &mut rng, resp, thorough, shards),
                     "C05" | "C06" | "C11" => {
-                        let n = if thorough { 200_000 } else { 6_000 } / shards;
+                        let n = if thorough { 60_000 } else { 6_000 } / shards;
                         for _ in 0..n {
                             run_session_case(&mut ctx, &mut rng, resp, untagged, &prop);
                         }
